@@ -1,7 +1,9 @@
 package engine
 
 import (
+	"os"
 	"runtime"
+	"strconv"
 	"sync"
 )
 
@@ -9,6 +11,9 @@ import (
 // so it can keep per-worker state (e.g. a world).
 func ParallelFor(n int, f func(worker, i int)) {
 	nw := runtime.NumCPU()
+	if v, err := strconv.Atoi(os.Getenv("VERIF_WORKERS")); err == nil && v > 0 {
+		nw = v
+	}
 	if nw > n {
 		nw = n
 	}
